@@ -61,7 +61,10 @@ def focusChecks (prevF : Nat) (script : List Cmd) (now : Impl) (fails : List Boo
   let tr := implTrace script (dropFailedFocusOut fails now.log)
   if now.e then none else
   match focusRun prevF false tr with
-  | some f' => if some f' = now.f then none
+  | some f' => if some f' = now.f then
+                 (match selfFocusPair none tr with
+                  | some w => some s!"FAIL focus: FocusOut and FocusIn delivered to the same widget {w} although the focus did not change"
+                  | none => none)
                else some s!"FAIL focus: last FocusIn went to {f'} but focused widget is {now.f.getD 0}"
   | none =>
     if focusOutAnsweredWithFocus script now.log
